@@ -211,10 +211,18 @@ class SlicesSplit(RewriteRuleClassBase):
             return check_result.fail("Last dimension is not equal to End1.")
         if last_dim // 2 != b1[0]:
             return check_result.fail("Last dimension is not equal to Begin1.")
+        if b1[0] <= 0:
+            return check_result.fail("The first slice is empty.")
+        if context.model.opset_imports.get("", 0) < 13:
+            return check_result.fail("Split takes the sizes as an input from opset 13.")
+        # The sizes are spelled out: num_outputs only exists from opset 18 and would
+        # split an odd dimension as (3, 2) where the slices are (2, 3).
+        self._split_sizes = [b1[0], last_dim - b1[0]]
         return check_result
 
     def rewrite(self, op, x, begin0, end0, axes0, begin1, end1, axes1):
-        return op.Split(x, num_outputs=2, axis=-1, _outputs=2)
+        split = op.Constant(value_ints=self._split_sizes)
+        return op.Split(x, split, axis=-1, _outputs=2)
 
 
 class TransposeIdentity(RewriteRuleClassBase):
